@@ -280,7 +280,7 @@ func (fm *FileModel) CompareRejects(w *World, m *skel.Method, field string, exp 
 			if a.atom != nil {
 				name = a.atom.Name
 			}
-			issues = append(issues, Issue{Rule: "A-NOEXTRA", Construct: "reject branch without a stated constraint (" + a.r.Kind + " " + a.r.Op + ")",
+			issues = append(issues, Issue{Rule: "A-NOEXTRA", Construct: fmt.Sprintf("reject branch without a stated constraint (%s %s against %s, loop depth %d)", a.r.Kind, a.r.Op, name, len(a.r.Loops)),
 				Msg: fmt.Sprintf("%s: %s.%s rejects on `%s` (against %s) although the schema states no such constraint there: valid documents are refused", what, m.Recv, m.Name, a.r.Cond, name)})
 		}
 	}
